@@ -214,8 +214,14 @@ func Gen(prop string, r *sim.Rand, tier string) sim.Script {
 			}
 			batch()
 			s.Ops = append(s.Ops, WOp{K: "commit", N: r.Intn(5), Sync: true})
+			if r.Chance(1, 5) { // the same state committed once more: nothing to save
+				s.Ops = append(s.Ops, WOp{K: "commit", N: r.Intn(5), Sync: true})
+			}
 			for g := []int{0, 1, 2, 2}[r.Intn(4)]; g > 0; g-- {
 				s.Ops = append(s.Ops, WOp{K: "gc"})
+			}
+			if r.Chance(1, 8) {
+				s.Ops = append(s.Ops, WOp{K: "commit", N: r.Intn(5), Sync: true})
 			}
 			if r.Chance(1, 4) {
 				s.Ops = append(s.Ops, WOp{K: "setroot", N: r.Intn(12)})
@@ -359,6 +365,9 @@ func Gen(prop string, r *sim.Rand, tier string) sim.Script {
 			}
 		}
 		s.Ops = append(s.Ops, WOp{K: "commit", N: r.Intn(5), Sync: true})
+		if r.Chance(1, 5) {
+			s.Ops = append(s.Ops, WOp{K: "commit", N: r.Intn(5), Sync: true})
+		}
 		if r.Chance(1, 2) {
 			s.Ops = append(s.Ops, WOp{K: "gc"})
 		}
